@@ -81,7 +81,7 @@ func runWiring(c WiringCase) (evid.Result, error) {
 		addrs = append(addrs, f.Addr)
 	}
 	flags := []string{"--mode=proxy", "--mapping=auto", fmt.Sprintf("--replicas=%d", c.Replicas),
-		"--hot-stores=" + strings.Join(addrs[:nHot], ","), "--bulk-shard-timeout=5s"}
+		"--hot-stores=" + strings.Join(addrs[:nHot], ","), "--bulk-shard-timeout=60s"}
 	if c.HotReplicas > 0 {
 		flags = append(flags, fmt.Sprintf("--hot-replicas=%d", c.HotReplicas))
 	}
